@@ -20,16 +20,19 @@ type Deployed struct {
 }
 
 type ContractModel struct {
+	VI      bool // the contract interface VI is deployed next to World
 	Accts   map[int]map[string]*Deployed
 	Touched map[string]bool // "a/name": a lifecycle mutator already ran in the current transaction
+	Changed map[string]bool // "a/name": the code of the contract was changed (add / update / remove) by the current transaction
 }
 
 func NewContractModel() *ContractModel {
-	return &ContractModel{Accts: map[int]map[string]*Deployed{}, Touched: map[string]bool{}}
+	return &ContractModel{Accts: map[int]map[string]*Deployed{}, Touched: map[string]bool{}, Changed: map[string]bool{}}
 }
 
 func (c *ContractModel) Clone() *ContractModel {
 	n := NewContractModel()
+	n.VI = c.VI
 	for a, m := range c.Accts {
 		n.Accts[a] = map[string]*Deployed{}
 		for k, d := range m {
@@ -40,11 +43,15 @@ func (c *ContractModel) Clone() *ContractModel {
 	for k, v := range c.Touched {
 		n.Touched[k] = v
 	}
+	for k, v := range c.Changed {
+		n.Changed[k] = v
+	}
 	return n
 }
 
 func (c *ContractModel) BeginTx() {
 	c.Touched = map[string]bool{}
+	c.Changed = map[string]bool{}
 	for _, m := range c.Accts {
 		for _, d := range m {
 			d.Fresh = false
@@ -92,20 +99,20 @@ func ctSource(name string, ver int, variant string) string {
 `, ev, ver, emit, ver*10)
 	switch variant {
 	case "ok":
-		return fmt.Sprintf("access(all) contract %s {%s}", name, body)
+		return fmt.Sprintf("import VI from 0x1\naccess(all) contract %s: VI {%s}", name, body)
 	case "enum":
-		return fmt.Sprintf("access(all) contract %s {\n    access(all) enum K: UInt8 { access(all) case a; access(all) case b }%s}", name, body)
+		return fmt.Sprintf("import VI from 0x1\naccess(all) contract %s: VI {\n    access(all) enum K: UInt8 { access(all) case a; access(all) case b }%s}", name, body)
 	case "illtyped":
 		return fmt.Sprintf("access(all) contract %s {\n    access(all) var x: Int\n    access(all) fun ver(): Int { return \"%d\" }\n    init() { self.x = 1 }\n}", name, ver)
 	case "misnamed":
-		return fmt.Sprintf("access(all) contract %sX {%s}", name, body)
+		return fmt.Sprintf("import VI from 0x1\naccess(all) contract %sX: VI {%s}", name, body)
 	case "incompat":
-		return fmt.Sprintf("access(all) contract %s {\n    access(all) var x: String\n    access(all) fun ver(): Int { return %d }\n    init() { self.x = \"\" }\n}", name, ver)
+		return fmt.Sprintf("import VI from 0x1\naccess(all) contract %s: VI {\n    %s\n    access(all) var x: String\n    access(all) fun ver(): Int { return %d }\n    access(all) fun bump() { %s }\n    init() { self.x = \"\" }\n}", name, ev, ver, strings.Replace(emit, "self.x", "1", -1))
 	case "syntax":
 		return fmt.Sprintf("access(all) contract %s { access(all) var x: Int init( { self.x = %d } }", name, ver)
 	case "initfail":
 		// a valid program whose initializer aborts at run time: deploying it fails, updating to it is fine (initializers do not run on update)
-		return fmt.Sprintf("access(all) contract %s {\n    %s\n    access(all) var x: Int\n    access(all) fun ver(): Int { return %d }\n    access(all) fun bump() { self.x = self.x + 1; %s }\n    init() { self.x = %d; if self.x >= 0 { panic(\"init of %s\") } }\n}", name, ev, ver, emit, ver*10, name)
+		return fmt.Sprintf("import VI from 0x1\naccess(all) contract %s: VI {\n    %s\n    access(all) var x: Int\n    access(all) fun ver(): Int { return %d }\n    access(all) fun bump() { self.x = self.x + 1; %s }\n    init() { self.x = %d; if self.x >= 0 { panic(\"init of %s\") } }\n}", name, ev, ver, emit, ver*10, name)
 	}
 	panic("harness: contract variant " + variant)
 }
@@ -114,8 +121,14 @@ func (o Op) extraImport() string {
 	if o.K == "ct.call" {
 		return fmt.Sprintf("import %s from 0x%x", o.S, o.A)
 	}
+	if o.K == "ct.borrow" {
+		return "import VI from 0x1"
+	}
 	return ""
 }
+
+// viSrc: the contract interface every lifecycle contract conforms to (deployed next to World)
+const viSrc = `access(all) contract interface VI { access(all) fun ver(): Int }`
 
 func (o Op) codeContracts(k int) (string, bool) {
 	n := func(s string) string { return fmt.Sprintf("%s_%d", s, k) }
@@ -141,6 +154,12 @@ func (o Op) codeContracts(k int) (string, bool) {
 		w(`%s`, ob("len", TInt, true, n("dc")+"?.code?.length"))
 	case "ct.borrow":
 		w(`%s`, ob("bor", TBool, false, fmt.Sprintf("%s.borrow<&AnyStruct>(name: %q) != nil", ct, o.S)))
+		// the code that runs behind the borrowed reference is the deployed version's (the transaction does not import the contract).
+		// Not observed (J == 1) after this transaction itself changed the contract's code: whether the old or the new program runs
+		// then depends on the host (code visibility inside the updating transaction, program cache), DESIGN.md §4.
+		if o.J == 0 {
+			w(`%s`, ob("bver", TInt, true, fmt.Sprintf("%s.borrow<&{VI}>(name: %q)?.ver()", ct, o.S)))
+		}
 	case "ct.names":
 		w(`%s`, ob("~names", TArr(TString), false, "*"+ct+".names"))
 	case "ct.call":
@@ -202,6 +221,7 @@ func (m *Model) applyContracts(o Op, pr *Pred) (string, bool) {
 			return FCtInvalid, true
 		}
 		c.Accts[o.A][o.S] = &Deployed{Ver: o.I, Variant: variant, X: int64(o.I * 10), Fresh: true}
+		c.Changed[key] = true
 		pr.obs("add", fmt.Sprintf("%q", o.S))
 		pr.Events = append(pr.Events, ctEvent("Added", o.A, o.S, ctSource(o.S, o.I, o.M)))
 	case "ct.update", "ct.tryUpdate":
@@ -229,6 +249,7 @@ func (m *Model) applyContracts(o Op, pr *Pred) (string, bool) {
 			pr.obs("upd", fmt.Sprintf("%q", o.S))
 		}
 		cur.Ver, cur.Variant = o.I, o.M
+		c.Changed[key] = true
 		pr.Events = append(pr.Events, ctEvent("Updated", o.A, o.S, ctSource(o.S, o.I, o.M)))
 	case "ct.remove":
 		if cur == nil {
@@ -242,6 +263,7 @@ func (m *Model) applyContracts(o Op, pr *Pred) (string, bool) {
 		pr.Events = append(pr.Events, ctEvent("Removed", o.A, o.S, ctSource(o.S, cur.Ver, cur.Variant)))
 		delete(c.Accts[o.A], o.S)
 		c.Touched[key] = true
+		c.Changed[key] = true
 	case "ct.get":
 		if cur == nil {
 			pr.obs("get", "nil")
@@ -253,6 +275,13 @@ func (m *Model) applyContracts(o Op, pr *Pred) (string, bool) {
 	case "ct.borrow":
 		// a contract deployed in the current transaction is not observable yet (contract updates are delayed)
 		pr.obs("bor", fmt.Sprint(cur != nil && !cur.Fresh))
+		if o.J == 0 {
+			if cur != nil && !cur.Fresh {
+				pr.obs("bver", fmt.Sprintf("Int(%d)", cur.Ver))
+			} else {
+				pr.obs("bver", "nil")
+			}
+		}
 	case "ct.names":
 		var ns []string
 		for nme := range c.Accts[o.A] {
@@ -260,6 +289,9 @@ func (m *Model) applyContracts(o Op, pr *Pred) (string, bool) {
 		}
 		if o.A == WorldAddr {
 			ns = append(ns, `"World"`)
+			if c.VI {
+				ns = append(ns, `"VI"`)
+			}
 		}
 		sort.Strings(ns)
 		pr.obs("~names", "["+strings.Join(ns, ", ")+"]")
@@ -385,7 +417,11 @@ func (g *Gen) contractOp() Op {
 	case 0:
 		return Op{K: "ct.get", A: a, S: name}
 	case 1:
-		return Op{K: "ct.borrow", A: a, S: name}
+		o := Op{K: "ct.borrow", A: a, S: name}
+		if g.M.Ctr.Changed[key] {
+			o.J = 1
+		}
+		return o
 	default:
 		return Op{K: "ct.names", A: a}
 	}
